@@ -2593,6 +2593,15 @@ def roundtrip_case(v, shape, fmt):
         kw = {}
     elif shape == "str_checks":
         cols = {"s": pa.Column(str, [Check.str_matches("^a[0-9]+$"), Check.str_length(1, 5), Check.str_startswith("a")], nullable=B["nullable"], unique=B["unique"])}
+    elif shape == "datetime_range":
+        # date-time and duration bounds are concrete (their text conversion is C code); the inclusion flags and the options travelling
+        # next to them in the same statistics mapping are symbolic
+        import pandas as _pd
+
+        cols = {"t": pa.Column("datetime64[ns]", Check.in_range(_pd.Timestamp("2020-01-01"), _pd.Timestamp("2021-06-01 12:00"), B["rw"], B["ina"]), nullable=B["nullable"]),
+                "d": pa.Column("timedelta64[ns]", [Check.in_range(_pd.Timedelta(0), _pd.Timedelta(days=2), B["ucn"], B["amc"]), Check.ge(_pd.Timedelta(0))], unique=B["unique"]),
+                "a": cols["a"]}
+        kw["index"] = pa.Index("datetime64[ns]", Check.le(_pd.Timestamp("2030-01-01")), name="i", unique=B["idx_unique"])
     elif shape != "base":
         raise KeyError(shape)
     try:
